@@ -3,6 +3,8 @@ import FeatModel.Model.Poly
 import FeatModel.Model.FE
 import FeatModel.Model.FECfg
 import FeatModel.Model.FEHermite
+import FeatModel.Model.FEVolume
+import FeatModel.Model.FEUnmap
 /-! line-protocol driver for the C15 models (reference bases, trafo, chain rule, DOF mappings, interpolation)
 
     `<op> <fam> <S|H> <dim> <mesh body> <op arguments>`, ops `ev`, `ref`, `dofs`, `interp`, `vol`, `tabcheck` -/
@@ -67,6 +69,16 @@ def handle : P String := do
   if op = "vol" then
     let vols := (List.range (m.n m.dim)).map fun c => cellVolume m.kind m.dim (m.entVerts m.dim c)
     return s!"V {showRatsL vols}"
+  if op = "volq" then
+    let sums := (List.range (m.n m.dim)).map fun c => volQuad m.kind m.dim (m.entVerts m.dim c)
+    return s!"W {showRatsL sums}"
+  if op = "newton" then
+    -- the implementation runs in double precision: both outputs are rounded by the check before they are compared
+    let c ← nat
+    let x ← many m.dim rat
+    let V := m.entVerts m.dim c
+    let r := unmapNewton m.kind m.dim V (mapPoint m.kind m.dim V x)
+    return s!"N {b2s r.1} {showRats r.2}"
   if op = "trcfg" then
     let c ← nat
     let x ← many m.dim rat
